@@ -54,7 +54,7 @@ func TestVerifC14Stress(t *testing.T) {
 	defer rec.Finish()
 	env := rec.Env
 	repository.TestUseLowSecurityKDFParameters(t)
-	rounds := env.Pick(2, 8)
+	rounds := env.Pick(2, 6)
 	for r := 0; r < rounds; r++ {
 		if !env.Mine(r) {
 			continue
@@ -66,7 +66,7 @@ func TestVerifC14Stress(t *testing.T) {
 func c14StressRound(t *testing.T, rec *kit.Rec, round int) {
 	const password = "c14-stress"
 	rng := rec.RNG("stress", round)
-	ctx, cancel := context.WithTimeout(context.Background(), 25*time.Minute)
+	ctx, cancel := context.WithTimeout(context.Background(), 50*time.Minute)
 	defer cancel()
 	be := kit.NewVBackend(5, true)
 	be.SetYield(8, rec.RNG("yield", round))
@@ -87,7 +87,7 @@ func c14StressRound(t *testing.T, rec *kit.Rec, round int) {
 	defer os.RemoveAll(base)
 
 	const writers, readers = 3, 4
-	backupsPerWriter := rec.Env.Pick(2, 6)
+	backupsPerWriter := rec.Env.Pick(2, 4)
 	var vmu sync.Mutex
 	versions := map[string]c14Version{} // "w<writer>/v<version>" -> content
 	var writersDone atomic.Int32
@@ -256,7 +256,7 @@ func c14StressRound(t *testing.T, rec *kit.Rec, round int) {
 	go func() { wg.Wait(); close(done) }()
 	select {
 	case <-done:
-	case <-time.After(27 * time.Minute):
+	case <-time.After(52 * time.Minute):
 		stalled.Store(true)
 		cancel()
 		<-done
